@@ -3,7 +3,7 @@ from pyvc.api import *
 import worker as W
 
 PROP = 'C03'
-REPLAYERS = {'pool.Worker.workloop': 'replayers/workloop.py', 'pool.ApplyResult._ack': 'replayers/generic.py'}
+REPLAYERS = {'pool.Worker.workloop': 'replayers/workloop.py', 'pool.ApplyResult._ack': 'replayers/ack_owner.py'}
 
 
 def build(w):
